@@ -4,9 +4,920 @@ From Dae Require Import C12_Spec C12_Model.
 Import ListNotations.
 Open Scope N_scope.
 
-Lemma C12_prefix2bin_refuted_proof :
+(* ------------------------------------------------------------------ bit strings *)
+
+Lemma bits_be_length : forall n a, length (bits_be n a) = n.
+Proof. induction n; intros; cbn [bits_be length]; auto. Qed.
+
+Lemma byte_bit_spec : forall b j, (N.land (N.shiftr b j) 1 =? 1) = N.testbit b j.
+Proof.
+  intros b j.
+  replace (N.testbit b j) with (N.testbit (N.shiftr b j) 0) by (rewrite N.shiftr_spec'; f_equal; lia).
+  rewrite N.bit0_eqb. change 1 with (N.ones 1) at 1. rewrite N.land_ones. reflexivity.
+Qed.
+
+Lemma byte_bits_spec : forall b, byte_bits b = bits_be 8 b.
+Proof.
+  intros b. unfold byte_bits. cbn [map]. rewrite !byte_bit_spec. reflexivity.
+Qed.
+
+Lemma bits_be_app : forall m n a,
+  bits_be (m + n) a = bits_be m (N.shiftr a (N.of_nat n)) ++ bits_be n a.
+Proof.
+  induction m; intros n a.
+  - reflexivity.
+  - cbn [plus bits_be app]. rewrite IHm. f_equal.
+    rewrite N.shiftr_spec'. f_equal. lia.
+Qed.
+
+Lemma bits_be_land_255 : forall x, bits_be 8 (N.land x 255) = bits_be 8 x.
+Proof.
+  intros x. cbn [bits_be]. rewrite !N.land_spec.
+  cbn [N.of_nat Pos.of_succ_nat Pos.succ].
+  repeat match goal with |- context [N.testbit 255 ?k] =>
+    change (N.testbit 255 k) with true end.
+  rewrite !andb_true_r. reflexivity.
+Qed.
+
+Lemma flat_bytes_be : forall k a, flat_map byte_bits (bytes_be k a) = bits_be (8 * k) a.
+Proof.
+  induction k; intros a.
+  - reflexivity.
+  - cbn [bytes_be flat_map]. rewrite IHk, byte_bits_spec, bits_be_land_255.
+    replace (8 * S k)%nat with (8 + 8 * k)%nat by lia.
+    rewrite (bits_be_app 8 (8 * k) a). do 3 f_equal. lia.
+Qed.
+
+Lemma firstn_app_exact : forall A (l1 l2 : list A), firstn (length l1) (l1 ++ l2) = l1.
+Proof. induction l1; intros; cbn; [reflexivity | now rewrite IHl1]. Qed.
+
+Lemma firstn_bits_top : forall n a, (n <= 128)%nat ->
+  firstn n (bits_be 128 a) = bits_be n (N.shiftr a (N.of_nat (128 - n))).
+Proof.
+  intros n a H.
+  replace 128%nat with (n + (128 - n))%nat at 1 by lia.
+  rewrite bits_be_app.
+  rewrite <- (bits_be_length n (N.shiftr a (N.of_nat (128 - n)))) at 1.
+  apply firstn_app_exact.
+Qed.
+
+Lemma testbit_high : forall x m k, x < 2 ^ m -> m <= k -> N.testbit x k = false.
+Proof.
+  intros x m k Hx Hk. destruct (N.eq_dec x 0) as [->|Hz]; [apply N.bits_0|].
+  apply N.bits_above_log2. apply N.log2_lt_pow2 in Hx; lia.
+Qed.
+
+Lemma bits_be_testbit : forall n x y, bits_be n x = bits_be n y ->
+  forall i, (i < n)%nat -> N.testbit x (N.of_nat i) = N.testbit y (N.of_nat i).
+Proof.
+  induction n; intros x y H i Hi; [lia|].
+  cbn [bits_be] in H. injection H as H0 H1.
+  destruct (Nat.eq_dec i n) as [->|]; [assumption|]. apply IHn; [assumption|lia].
+Qed.
+
+Lemma bits_be_inj : forall n x y, x < 2 ^ N.of_nat n -> y < 2 ^ N.of_nat n ->
+  bits_be n x = bits_be n y -> x = y.
+Proof.
+  intros n x y Hx Hy H. apply N.bits_inj. intros k.
+  destruct (N.lt_ge_cases k (N.of_nat n)) as [Hk|Hk].
+  - replace k with (N.of_nat (N.to_nat k)) by lia. apply (bits_be_testbit n); [assumption|lia].
+  - rewrite (testbit_high x _ k Hx Hk), (testbit_high y _ k Hy Hk). reflexivity.
+Qed.
+
+Lemma top_lt : forall n a, a < 2 ^ 128 -> n <= 128 -> top n a < 2 ^ n.
+Proof.
+  intros n a Ha Hn. unfold top. rewrite N.shiftr_div_pow2.
+  apply N.div_lt_upper_bound; [apply N.pow_nonzero; lia|].
+  rewrite <- N.pow_add_r. replace (128 - n + n) with 128 by lia. assumption.
+Qed.
+
+Lemma firstn_bits128 : forall n a, n <= 128 ->
+  firstn (N.to_nat n) (bits128 a) = bits_be (N.to_nat n) (top n a).
+Proof.
+  intros n a Hn. unfold bits128, top. rewrite firstn_bits_top by lia. do 2 f_equal. lia.
+Qed.
+
+Lemma firstn_bits128_eq_iff : forall n a b, n <= 128 -> a < 2 ^ 128 -> b < 2 ^ 128 ->
+  (firstn (N.to_nat n) (bits128 a) = firstn (N.to_nat n) (bits128 b) <-> top n a = top n b).
+Proof.
+  intros n a b Hn Ha Hb. rewrite !firstn_bits128 by assumption. split.
+  - apply bits_be_inj; rewrite N2Nat.id; apply top_lt; assumption.
+  - intros ->. reflexivity.
+Qed.
+
+(* ------------------------------------------------------------------ Prefix2bin128 *)
+
+Lemma p2b_loop_pos : forall bs n, (1 <= n)%Z -> p2b_loop bs n = firstn (Z.to_nat n) bs.
+Proof.
+  induction bs as [|b rest IH]; intros n Hn.
+  - now rewrite firstn_nil.
+  - cbn [p2b_loop]. destruct (n - 1 =? 0)%Z eqn:E.
+    + replace (Z.to_nat n) with 1%nat by lia. reflexivity.
+    + rewrite IH by lia. replace (Z.to_nat n) with (S (Z.to_nat (n - 1))) by lia. reflexivity.
+Qed.
+
+Lemma p2b_loop_nonpos : forall bs n, (n <= 0)%Z -> p2b_loop bs n = bs.
+Proof.
+  induction bs as [|b rest IH]; intros n Hn; [reflexivity|].
+  cbn [p2b_loop]. destruct (n - 1 =? 0)%Z eqn:E; [lia|]. now rewrite IH by lia.
+Qed.
+
+Lemma as16_bits : forall p, flat_map byte_bits (as16 p) = bits128 (addr128 p).
+Proof. intros p. unfold as16. now rewrite flat_bytes_be. Qed.
+
+Lemma p2b_count : forall p,
+  (Z.of_N (p_bits p) + (if p_is4 p then 96 else 0))%Z = Z.of_N (len128 p).
+Proof. intros p. unfold len128. destruct (p_is4 p); lia. Qed.
+
+Lemma prefix2bin128_pos : forall p, 1 <= len128 p -> prefix2bin128 p = prefix_bits p.
+Proof.
+  intros p H. unfold prefix2bin128, prefix_bits. cbv zeta. rewrite as16_bits, p2b_count.
+  rewrite p2b_loop_pos by lia.
+  replace (Z.to_nat (Z.of_N (len128 p))) with (N.to_nat (len128 p)) by lia. reflexivity.
+Qed.
+
+Lemma prefix2bin128_zero : forall p, len128 p = 0 -> prefix2bin128 p = bits128 (addr128 p).
+Proof.
+  intros p H. unfold prefix2bin128. cbv zeta. rewrite as16_bits, p2b_count.
+  now rewrite p2b_loop_nonpos by lia.
+Qed.
+
+Lemma firstn_128_bits128 : forall a, firstn 128 (bits128 a) = bits128 a.
+Proof. intros a. apply firstn_all2. unfold bits128. now rewrite bits_be_length. Qed.
+
+Lemma probe_bin_spec : forall a, probe_bin a = bits128 a.
+Proof.
+  intros a. unfold probe_bin. rewrite prefix2bin128_pos by (cbn; lia).
+  unfold prefix_bits. cbn [len128 addr128 p_is4 p_addr p_bits].
+  change (N.to_nat 128) with 128%nat. apply firstn_128_bits128.
+Qed.
+
+
+Lemma prefix2bin128_effective : forall p, prefix2bin128 p = prefix_bits (effective p).
+Proof.
+  intros p. unfold effective. destruct (len128 p =? 0) eqn:E.
+  - rewrite prefix2bin128_zero by lia. unfold prefix_bits.
+    cbn [len128 addr128 p_is4 p_addr p_bits]. change (N.to_nat 128) with 128%nat.
+    now rewrite firstn_128_bits128.
+  - apply prefix2bin128_pos. lia.
+Qed.
+
+(* ------------------------------------------------------------------ trie *)
+
+Lemma is_prefix_iff : forall k w, is_prefix k w = true <-> firstn (length k) w = k.
+Proof.
+  induction k as [|a k IH]; intros w.
+  - cbn. tauto.
+  - destruct w as [|b w]; cbn [is_prefix length firstn].
+    + split; discriminate.
+    + rewrite andb_true_iff, eqb_true_iff, IH. split.
+      * intros [-> ->]. reflexivity.
+      * intros H. injection H as -> H. auto.
+Qed.
+
+Lemma wf_prefix_bounds : forall p, wf_prefix p = true -> addr128 p < 2 ^ 128 /\ len128 p <= 128.
+Proof.
+  intros p H. unfold wf_prefix in H. unfold addr128, len128, v4_mapped.
+  destruct (p_is4 p); apply andb_true_iff in H as [H1 H2];
+    apply N.ltb_lt in H1; apply N.leb_le in H2.
+  - change (2 ^ 32) with 4294967296 in H1. change (2 ^ 128) with 340282366920938463463374607431768211456. lia.
+  - lia.
+Qed.
+
+Lemma is_prefix_contains : forall p a, wf_prefix p = true -> wf_addr a = true ->
+  is_prefix (prefix_bits p) (bits128 a) = contains p a.
+Proof.
+  intros p a Hp Ha. apply wf_prefix_bounds in Hp as [HA HL]. apply N.ltb_lt in Ha.
+  apply eq_true_iff_eq. rewrite is_prefix_iff. unfold contains. rewrite N.eqb_eq.
+  assert (HLen : length (prefix_bits p) = N.to_nat (len128 p)).
+  { unfold prefix_bits, bits128. rewrite firstn_length, bits_be_length. lia. }
+  rewrite HLen. unfold prefix_bits. rewrite firstn_bits128_eq_iff by assumption. split; congruence.
+Qed.
+
+Lemma effective_wf : forall p, wf_prefix p = true -> wf_prefix (effective p) = true.
+Proof.
+  intros p H. unfold effective. destruct (len128 p =? 0); [|assumption].
+  apply wf_prefix_bounds in H as [H _]. unfold wf_prefix. cbn [p_is4 p_addr p_bits].
+  apply andb_true_iff. split; [now apply N.ltb_lt | reflexivity].
+Qed.
+
+Lemma trie_match_exact : forall ps a,
+  forallb wf_prefix ps = true -> wf_addr a = true ->
+  trie_match ps a = set_contains (map effective ps) a.
+Proof.
+  intros ps a Hps Ha. unfold trie_match, has_prefix, new_trie_from_prefixes, set_contains.
+  rewrite probe_bin_spec. induction ps as [|p ps IH]; [reflexivity|].
+  cbn [forallb] in Hps. apply andb_true_iff in Hps as [Hp Hps].
+  cbn [map existsb]. rewrite IH by assumption. f_equal.
+  rewrite prefix2bin128_effective. apply is_prefix_contains; [now apply effective_wf | assumption].
+Qed.
+
+
+Lemma effective_id : forall ps, no_v6_len0 ps = true -> map effective ps = ps.
+Proof.
+  induction ps as [|p ps IH]; intros H; [reflexivity|].
+  cbn [no_v6_len0 forallb] in H. apply andb_true_iff in H as [Hp Hps].
+  cbn [map]. rewrite IH by assumption. f_equal. unfold effective.
+  destruct (len128 p =? 0); [discriminate | reflexivity].
+Qed.
+
+Lemma trie_contains_partial_proof : forall ps a,
+  forallb wf_prefix ps = true -> wf_addr a = true -> no_v6_len0 ps = true ->
+  trie_match ps a = set_contains ps a.
+Proof. intros. rewrite trie_match_exact by assumption. now rewrite effective_id. Qed.
+
+Lemma prefix2bin_refuted_proof :
   exists p, wf_prefix p = true /\ prefix2bin128 p <> prefix_bits p.
 Proof.
   exists {| p_is4 := false; p_addr := 0; p_bits := 0 |}. split; [reflexivity|].
   vm_compute. discriminate.
+Qed.
+
+Lemma trie_contains_refuted_proof :
+  exists ps a, forallb wf_prefix ps = true /\ wf_addr a = true /\ trie_match ps a <> set_contains ps a.
+Proof.
+  exists [{| p_is4 := false; p_addr := 0; p_bits := 0 |}], 1.
+  repeat split; vm_compute; discriminate.
+Qed.
+
+(* ------------------------------------------------------------------ LPM keys *)
+
+Ltac Zify.zify_post_hook ::= Z.to_euclidean_division_equations.
+
+Lemma land_255_mod : forall x, N.land x 255 = x mod 256.
+Proof. intros x. change 255 with (N.ones 8). now rewrite N.land_ones. Qed.
+
+Lemma word_bytes_roundtrip : forall big b0 b1 b2 b3,
+  b0 < 256 -> b1 < 256 -> b2 < 256 -> b3 < 256 ->
+  bytes_of_word big (word_of_bytes big b0 b1 b2 b3) = [b0; b1; b2; b3].
+Proof.
+  intros big b0 b1 b2 b3 H0 H1 H2 H3. unfold bytes_of_word, word_of_bytes.
+  rewrite !land_255_mod, !N.shiftr_div_pow2, !N.shiftl_mul_pow2.
+  change (2 ^ (8 * 0)) with 1. change (2 ^ (8 * 1)) with 256. change (2 ^ (8 * 2)) with 65536.
+  change (2 ^ (8 * 3)) with 16777216. change (2 ^ 8) with 256. change (2 ^ 16) with 65536.
+  change (2 ^ 24) with 16777216.
+  destruct big; repeat f_equal; lia.
+Qed.
+
+Lemma bytes_be_lt : forall k a, Forall (fun b => b < 256) (bytes_be k a).
+Proof.
+  induction k; intros a; cbn [bytes_be]; constructor; [|apply IHk].
+  rewrite land_255_mod. apply N.mod_lt. lia.
+Qed.
+
+Lemma key_bytes_words : forall big bs n, Forall (fun b => b < 256) bs -> length bs = 16%nat ->
+  key_bytes big {| lk_prefixlen := n; lk_data := words_of_bytes big bs |} = bs.
+Proof.
+  intros big bs n HF HL. unfold key_bytes. cbn [lk_data].
+  do 16 (destruct bs as [|? bs]; [discriminate|]). destruct bs; [|discriminate].
+  repeat match goal with H : Forall _ (_ :: _) |- _ => inversion H; clear H; subst end.
+  cbn [words_of_bytes flat_map]. rewrite !word_bytes_roundtrip by assumption. reflexivity.
+Qed.
+
+Lemma bytes_be_length : forall k a, length (bytes_be k a) = k.
+Proof. induction k; intros; cbn [bytes_be length]; auto. Qed.
+
+Lemma node_of_prefix : forall big p,
+  lpm_node_of_key big (cidr_to_lpm_key big p) = {| ln_prefixlen := len128 p; ln_data := bytes_be 16 (addr128 p) |}.
+Proof.
+  intros big p. unfold lpm_node_of_key, cidr_to_lpm_key. cbn [lk_prefixlen]. f_equal.
+  - unfold len128. destruct (p_is4 p); lia.
+  - unfold as16. apply key_bytes_words; [apply bytes_be_lt | apply bytes_be_length].
+Qed.
+
+Lemma node_of_probe : forall big a,
+  lpm_node_of_key big (probe_key big a) = {| ln_prefixlen := 128; ln_data := bytes_be 16 a |}.
+Proof.
+  intros big a. unfold lpm_node_of_key, probe_key. cbn [lk_prefixlen]. f_equal.
+  apply key_bytes_words; [apply bytes_be_lt | apply bytes_be_length].
+Qed.
+
+(* longest common prefix of two bit strings *)
+Fixpoint lcp (l1 l2 : list bool) : nat :=
+  match l1, l2 with
+  | a :: l1', b :: l2' => if Bool.eqb a b then S (lcp l1' l2') else O
+  | _, _ => O
+  end.
+
+Lemma lcp_app_same : forall b r1 r2, lcp (b ++ r1) (b ++ r2) = (length b + lcp r1 r2)%nat.
+Proof. induction b; intros; cbn; [reflexivity|]. rewrite eqb_reflx. now rewrite IHb. Qed.
+
+Lemma lcp_refl : forall b, lcp b b = length b.
+Proof. induction b; cbn; [reflexivity|]. rewrite eqb_reflx. now rewrite IHb. Qed.
+
+Lemma lcp_app_diff : forall b1 b2 r1 r2, length b1 = length b2 -> b1 <> b2 ->
+  lcp (b1 ++ r1) (b2 ++ r2) = lcp b1 b2.
+Proof.
+  induction b1 as [|x b1 IH]; intros [|y b2] r1 r2 HL HN; try discriminate.
+  - congruence.
+  - cbn. destruct (Bool.eqb x y) eqn:E; [|reflexivity].
+    apply eqb_prop in E. subst y. f_equal. apply IH; [now injection HL | congruence].
+Qed.
+
+Lemma lcp_firstn : forall n l1 l2, (n <= length l1)%nat -> (n <= length l2)%nat ->
+  ((n <= lcp l1 l2)%nat <-> firstn n l1 = firstn n l2).
+Proof.
+  induction n; intros l1 l2 H1 H2.
+  - cbn. split; [reflexivity | lia].
+  - destruct l1 as [|a l1]; [cbn in H1; lia|]. destruct l2 as [|b l2]; [cbn in H2; lia|].
+    cbn [lcp firstn length] in *. destruct (Bool.eqb a b) eqn:E.
+    + apply eqb_prop in E. subst b. rewrite <- Nat.succ_le_mono, (IHn l1 l2) by lia.
+      split; [intros ->; reflexivity | intros H; now injection H].
+    + split; [lia|]. intros H. injection H as -> _. now rewrite eqb_reflx in E.
+Qed.
+
+Definition range256 : list N := map N.of_nat (seq 0 256).
+Lemma in_range256 : forall x, x < 256 -> In x range256.
+Proof.
+  intros x H. unfold range256. replace x with (N.of_nat (N.to_nat x)) by lia.
+  apply in_map, in_seq. lia.
+Qed.
+
+Lemma byte_fls_table :
+  forallb (fun x => forallb (fun y =>
+     8 - N.size (N.lxor x y) =? N.of_nat (lcp (bits_be 8 x) (bits_be 8 y))) range256) range256 = true.
+Proof. vm_compute. reflexivity. Qed.
+
+Lemma byte_fls : forall x y, x < 256 -> y < 256 ->
+  8 - N.size (N.lxor x y) = N.of_nat (lcp (bits_be 8 x) (bits_be 8 y)).
+Proof.
+  intros x y Hx Hy. pose proof byte_fls_table as T.
+  rewrite forallb_forall in T. specialize (T x (in_range256 x Hx)).
+  rewrite forallb_forall in T. specialize (T y (in_range256 y Hy)). now apply N.eqb_eq in T.
+Qed.
+
+Lemma bits_be_8_inj : forall x y, x < 256 -> y < 256 -> bits_be 8 x = bits_be 8 y -> x = y.
+Proof. intros x y Hx Hy. apply bits_be_inj; assumption. Qed.
+
+Lemma lpm_common_spec : forall xs ys limit acc,
+  Forall (fun b => b < 256) xs -> Forall (fun b => b < 256) ys -> length xs = length ys -> acc <= limit ->
+  lpm_common xs ys limit acc
+  = N.min limit (acc + N.of_nat (lcp (flat_map (bits_be 8) xs) (flat_map (bits_be 8) ys))).
+Proof.
+  induction xs as [|x xs IH]; intros ys limit acc HX HY HL Hacc.
+  - destruct ys; [|discriminate]. cbn. lia.
+  - destruct ys as [|y ys]; [discriminate|].
+    inversion HX as [|? ? Hx HX']; subst. inversion HY as [|? ? Hy HY']; subst.
+    cbn [lpm_common flat_map]. rewrite byte_fls by assumption.
+    destruct (N.eq_dec x y) as [->|Hne].
+    + rewrite N.lxor_nilpotent. cbn [N.eqb negb]. rewrite lcp_app_same, bits_be_length.
+      rewrite lcp_refl, bits_be_length.
+      destruct (limit <=? acc + N.of_nat 8) eqn:E.
+      * lia.
+      * rewrite IH; [lia | assumption | assumption | now injection HL | lia].
+    + assert (HB : bits_be 8 x <> bits_be 8 y) by (intros E; apply Hne; now apply bits_be_8_inj).
+      rewrite lcp_app_diff by (rewrite ?bits_be_length; auto).
+      assert (HD : (N.lxor x y =? 0) = false).
+      { apply N.eqb_neq. intros E. apply N.lxor_eq in E. contradiction. }
+      rewrite HD. cbn [negb].
+      rewrite <- (app_nil_r (bits_be 8 x)) at 1. rewrite <- (app_nil_r (bits_be 8 y)) at 1.
+      rewrite lcp_app_diff by (rewrite ?bits_be_length; auto).
+      destruct (limit <=? acc + N.of_nat (lcp (bits_be 8 x) (bits_be 8 y))) eqn:E; lia.
+Qed.
+
+Lemma flat_bits_bytes_be : forall a, flat_map (bits_be 8) (bytes_be 16 a) = bits128 a.
+Proof.
+  intros a. unfold bits128. change 128%nat with (8 * 16)%nat.
+  rewrite <- (flat_bytes_be 16 a). apply flat_map_ext. intros b. symmetry. apply byte_bits_spec.
+Qed.
+
+Lemma lpm_node_matches : forall big p a, wf_prefix p = true -> wf_addr a = true ->
+  (lpm_matchlen (lpm_node_of_key big (cidr_to_lpm_key big p)) (lpm_node_of_key big (probe_key big a))
+   =? ln_prefixlen (lpm_node_of_key big (cidr_to_lpm_key big p))) = contains p a.
+Proof.
+  intros big p a Hp Ha. rewrite node_of_prefix, node_of_probe.
+  apply wf_prefix_bounds in Hp as [HA HL]. apply N.ltb_lt in Ha.
+  unfold lpm_matchlen. cbn [ln_prefixlen ln_data].
+  rewrite lpm_common_spec; [| apply bytes_be_lt | apply bytes_be_lt | now rewrite !bytes_be_length | lia].
+  rewrite !flat_bits_bytes_be. replace (N.min (len128 p) 128) with (len128 p) by lia.
+  apply eq_true_iff_eq. unfold contains. rewrite !N.eqb_eq.
+  rewrite <- (firstn_bits128_eq_iff (len128 p)) by assumption.
+  rewrite <- lcp_firstn by (unfold bits128; rewrite bits_be_length; lia). lia.
+Qed.
+
+Lemma lpm_lookup_some : forall nodes key best,
+  is_some (fold_left (fun best node =>
+               if lpm_matchlen node key =? ln_prefixlen node then
+                 match best with
+                 | Some l => if l <? ln_prefixlen node then Some (ln_prefixlen node) else best
+                 | None => Some (ln_prefixlen node)
+                 end
+               else best) nodes best)
+  = is_some best || existsb (fun node => lpm_matchlen node key =? ln_prefixlen node) nodes.
+Proof.
+  induction nodes as [|n nodes IH]; intros key best.
+  - cbn. now rewrite orb_false_r.
+  - cbn [fold_left existsb]. rewrite IH.
+    destruct (lpm_matchlen n key =? ln_prefixlen n).
+    + destruct best as [l|]; [destruct (l <? ln_prefixlen n)|]; reflexivity.
+    + reflexivity.
+Qed.
+
+Lemma lpm_key_contains_proof : forall big ps a,
+  forallb wf_prefix ps = true -> wf_addr a = true ->
+  kernel_match big ps a = set_contains ps a.
+Proof.
+  intros big ps a Hps Ha. unfold kernel_match, kernel_lookup, lpm_lookup. rewrite lpm_lookup_some.
+  cbn [is_some orb]. unfold lpm_map_of, set_contains.
+  induction ps as [|p ps IH]; [reflexivity|].
+  cbn [forallb] in Hps. apply andb_true_iff in Hps as [Hp Hps].
+  cbn [map existsb]. rewrite IH by assumption. f_equal. now apply lpm_node_matches.
+Qed.
+
+(* the lookup returns the length of the longest containing member *)
+Lemma lpm_lookup_longest : forall nodes key best r,
+  fold_left (fun best node =>
+               if lpm_matchlen node key =? ln_prefixlen node then
+                 match best with
+                 | Some l => if l <? ln_prefixlen node then Some (ln_prefixlen node) else best
+                 | None => Some (ln_prefixlen node)
+                 end
+               else best) nodes best = Some r ->
+  (forall n, In n nodes -> (lpm_matchlen n key =? ln_prefixlen n) = true -> ln_prefixlen n <= r)
+  /\ (forall l, best = Some l -> l <= r).
+Proof.
+  induction nodes as [|n nodes IH]; intros key best r H.
+  - cbn in H. subst best. split; [intros ? []|]. intros l E. injection E as ->. lia.
+  - cbn [fold_left] in H. apply IH in H as [H1 H2]. split.
+    + intros m [->|Hin] Hm; [|now apply H1].
+      rewrite Hm in H2. destruct best as [l|].
+      * destruct (l <? ln_prefixlen m) eqn:E; [now apply H2|].
+        specialize (H2 l eq_refl). lia.
+      * now apply H2.
+    + intros l ->. destruct (lpm_matchlen n key =? ln_prefixlen n); [|now apply H2].
+      destruct (l <? ln_prefixlen n) eqn:E; [|now apply H2].
+      specialize (H2 _ eq_refl). lia.
+Qed.
+
+Lemma kernel_lookup_longest_proof : forall big ps a r,
+  forallb wf_prefix ps = true -> wf_addr a = true ->
+  kernel_lookup big ps a = Some r ->
+  forall p, In p ps -> contains p a = true -> len128 p <= r.
+Proof.
+  intros big ps a r Hps Ha H p Hin Hc. unfold kernel_lookup, lpm_lookup in H.
+  apply lpm_lookup_longest in H as [H _].
+  specialize (H (lpm_node_of_key big (cidr_to_lpm_key big p))).
+  rewrite forallb_forall in Hps.
+  rewrite lpm_node_matches in H by auto. rewrite node_of_prefix in H. cbn [ln_prefixlen] in H.
+  apply H; [|assumption]. unfold lpm_map_of. rewrite <- node_of_prefix with (big := big).
+  apply (in_map (fun p => lpm_node_of_key big (cidr_to_lpm_key big p))). assumption.
+Qed.
+
+(* ------------------------------------------------------------------ canonicalisation, sharing *)
+
+Lemma prefix_eqb_eq : forall p q, prefix_eqb p q = true -> p = q.
+Proof.
+  intros [a b c] [a' b' c'] H. unfold prefix_eqb in H. cbn in H.
+  apply andb_true_iff in H as [H H3]. apply andb_true_iff in H as [H1 H2].
+  apply eqb_prop in H1. apply N.eqb_eq in H2. apply N.eqb_eq in H3. now subst.
+Qed.
+
+Lemma prefix_eqb_refl : forall p, prefix_eqb p p = true.
+Proof. intros p. unfold prefix_eqb. now rewrite eqb_reflx, !N.eqb_refl. Qed.
+
+Lemma prefixes_equal_eq : forall a b, prefixes_equal a b = true -> a = b.
+Proof.
+  induction a as [|x a IH]; intros [|y b] H; try discriminate; [reflexivity|].
+  cbn in H. apply andb_true_iff in H as [H1 H2]. apply prefix_eqb_eq in H1. subst. f_equal. now apply IH.
+Qed.
+
+Lemma insert_sorted_in : forall p l x, In x (insert_sorted p l) <-> x = p \/ In x l.
+Proof.
+  induction l as [|q l IH]; intros x; cbn [insert_sorted].
+  - cbn. intuition.
+  - destruct (prefix_less q p); cbn [In]; [rewrite IH|]; intuition.
+Qed.
+
+Lemma sort_prefixes_in : forall l x, In x (sort_prefixes l) <-> In x l.
+Proof.
+  induction l as [|p l IH]; intros x; [reflexivity|].
+  unfold sort_prefixes in *. cbn [fold_right]. rewrite insert_sorted_in, IH. cbn. intuition.
+Qed.
+
+Lemma dedup_adjacent_in : forall l x, In x (dedup_adjacent l) <-> In x l.
+Proof.
+  induction l as [|p l IH]; intros x; [reflexivity|].
+  cbn [dedup_adjacent]. destruct l as [|q l']; [reflexivity|].
+  destruct (prefix_eqb p q) eqn:E.
+  - apply prefix_eqb_eq in E. subst q. rewrite IH. cbn. intuition.
+  - cbn [In]. rewrite IH. reflexivity.
+Qed.
+
+Lemma canonicalize_in : forall l x, In x (canonicalize l) <-> In x l.
+Proof. intros. unfold canonicalize. now rewrite dedup_adjacent_in, sort_prefixes_in. Qed.
+
+Lemma set_contains_members : forall s t a, (forall p, In p s <-> In p t) ->
+  set_contains s a = set_contains t a.
+Proof.
+  intros s t a H. apply eq_true_iff_eq. unfold set_contains. rewrite !existsb_exists.
+  split; intros [p [Hin Hc]]; exists p; (split; [now apply H | assumption]).
+Qed.
+
+Lemma canonicalize_denotes_proof : forall l a, set_contains (canonicalize l) a = set_contains l a.
+Proof. intros. apply set_contains_members. intros p. apply canonicalize_in. Qed.
+
+Section Share.
+  Variable hash : list prefix -> N.
+
+  (* the stored set a rule points to has exactly the members the rule was given *)
+  Definition builder_inv (b : builder) : Prop :=
+    (forall h i ps, dedup_get (b_dedup b) h = Some (i, ps) -> nth_error (b_tries b) (N.to_nat i) = Some ps)
+    /\ (forall r, In r (b_rules b) ->
+          exists s, nth_error (b_tries b) (N.to_nat (r_index r)) = Some s /\ (forall p, In p s <-> In p (r_values r))).
+
+  Lemma nth_error_snoc_old : forall A (l : list A) x i v, nth_error l i = Some v -> nth_error (l ++ [x]) i = Some v.
+  Proof.
+    intros A l x i v H. rewrite nth_error_app1; [assumption|]. apply nth_error_Some. congruence.
+  Qed.
+
+  Lemma nth_error_snoc_new : forall A (l : list A) x, nth_error (l ++ [x]) (N.to_nat (N.of_nat (length l))) = Some x.
+  Proof. intros. rewrite Nat2N.id, nth_error_app2, Nat.sub_diag by lia. reflexivity. Qed.
+
+  Lemma dedup_get_cons : forall d h e h',
+    dedup_get ((h, e) :: d) h' = if h =? h' then Some e else dedup_get d h'.
+  Proof. intros. unfold dedup_get. cbn [find fst snd]. destruct (h =? h'); reflexivity. Qed.
+
+  Lemma inv_new : builder_inv new_builder.
+  Proof. split; [intros h i ps H; discriminate | intros r []]. Qed.
+
+  Lemma inv_fresh : forall b role not values raw,
+    builder_inv b -> (forall p, In p values <-> In p raw) ->
+    forall d', (forall h i ps, dedup_get d' h = Some (i, ps) ->
+                  dedup_get (b_dedup b) h = Some (i, ps) \/ (i = N.of_nat (length (b_tries b)) /\ ps = values)) ->
+    builder_inv {| b_tries := b_tries b ++ [values]; b_dedup := d';
+                   b_rules := b_rules b ++ [{| r_role := role; r_not := not;
+                                               r_index := N.of_nat (length (b_tries b)); r_values := raw |}] |}.
+  Proof.
+    intros b role not values raw [I1 I2] Hv d' Hd. split; cbn [b_tries b_dedup b_rules].
+    - intros h i ps H. apply Hd in H as [H|[-> ->]].
+      + apply nth_error_snoc_old. now apply I1 in H.
+      + apply nth_error_snoc_new.
+    - intros r Hr. apply in_app_or in Hr as [Hr|[<-|[]]].
+      + destruct (I2 r Hr) as [s [Hs Hm]]. exists s. split; [now apply nth_error_snoc_old | assumption].
+      + exists values. cbn [r_index r_values]. split; [apply nth_error_snoc_new | assumption].
+  Qed.
+
+  Lemma inv_step : forall b o, builder_inv b -> builder_inv (step hash b o).
+  Proof.
+    intros b [src not raw | not macs] I; cbn [step].
+    - unfold add_ip. cbv zeta.
+      set (values := canonicalize raw). set (h := hash values).
+      assert (Hv : forall p, In p values <-> In p raw) by (intros p; apply canonicalize_in).
+      destruct (dedup_get (b_dedup b) h) as [[i ps]|] eqn:G.
+      + destruct (prefixes_equal ps values) eqn:E.
+        * apply prefixes_equal_eq in E. subst ps. destruct I as [I1 I2]. split; cbn [b_tries b_dedup b_rules].
+          -- assumption.
+          -- intros r Hr. apply in_app_or in Hr as [Hr|[<-|[]]]; [now apply I2|].
+             exists values. cbn [r_index r_values]. split; [now apply I1 in G | assumption].
+        * apply inv_fresh; [assumption | assumption |].
+          intros h' i' ps' H. rewrite dedup_get_cons in H. destruct (h =? h'); [|now left].
+          injection H as <- <-. right. split; reflexivity.
+      + apply inv_fresh; [assumption | assumption |].
+        intros h' i' ps' H. rewrite dedup_get_cons in H. destruct (h =? h'); [|now left].
+        injection H as <- <-. right. split; reflexivity.
+    - unfold add_source_mac. cbv zeta.
+      apply inv_fresh; [assumption | reflexivity | intros h i ps H; now left].
+  Qed.
+
+  Lemma inv_run : forall ops, builder_inv (run hash ops).
+  Proof.
+    intros ops. unfold run. generalize inv_new. generalize new_builder.
+    induction ops as [|o ops IH]; intros b I; [assumption|]. cbn [fold_left]. apply IH. now apply inv_step.
+  Qed.
+
+  Lemma share_only_identical_proof : forall ops r1 r2,
+    In r1 (b_rules (run hash ops)) -> In r2 (b_rules (run hash ops)) ->
+    r_index r1 = r_index r2 -> identical (r_values r1) (r_values r2).
+  Proof.
+    intros ops r1 r2 H1 H2 E. destruct (inv_run ops) as [_ I].
+    destruct (I r1 H1) as [s1 [N1 M1]]. destruct (I r2 H2) as [s2 [N2 M2]].
+    rewrite E in N1. rewrite N1 in N2. injection N2 as <-.
+    intros p. rewrite <- M1, <- M2. reflexivity.
+  Qed.
+
+  Lemma stored_set_denotes_proof : forall ops r a,
+    In r (b_rules (run hash ops)) ->
+    exists s, nth_error (b_tries (run hash ops)) (N.to_nat (r_index r)) = Some s
+              /\ set_contains s a = set_contains (r_values r) a.
+  Proof.
+    intros ops r a H. destruct (inv_run ops) as [_ I]. destruct (I r H) as [s [Hs Hm]].
+    exists s. split; [assumption | now apply set_contains_members].
+  Qed.
+End Share.
+
+(* ------------------------------------------------------------------ MAC sets *)
+
+Lemma top_128 : forall a, top 128 a = a.
+Proof. intros a. unfold top. change (128 - 128) with 0. apply N.shiftr_0_r. Qed.
+
+Lemma mac_contains : forall m1 m2, contains (mac_prefix m1) m2 = (m2 =? m1).
+Proof.
+  intros. unfold contains. cbn [mac_prefix len128 addr128 p_is4 p_addr p_bits].
+  rewrite !top_128. apply N.eqb_sym.
+Qed.
+
+Lemma mac_set_spec : forall ms m, set_contains (map mac_prefix ms) m = mac_set_contains ms m.
+Proof.
+  intros ms m. unfold set_contains, mac_set_contains.
+  induction ms as [|x ms IH]; [reflexivity|]. cbn [map existsb]. now rewrite IH, mac_contains.
+Qed.
+
+Lemma mac_wf : forall ms, forallb wf_mac ms = true -> forallb wf_prefix (map mac_prefix ms) = true.
+Proof.
+  intros ms H. rewrite forallb_forall in *. intros p Hp. apply in_map_iff in Hp as [m [<- Hm]].
+  apply H in Hm. unfold wf_mac in Hm. apply N.ltb_lt in Hm. unfold wf_prefix. cbn.
+  apply andb_true_iff. split; [|reflexivity]. apply N.ltb_lt.
+  change (2 ^ 48) with 281474976710656 in Hm. change (2 ^ 128) with 340282366920938463463374607431768211456. lia.
+Qed.
+
+Lemma mac_no_len0 : forall ms, no_v6_len0 (map mac_prefix ms) = true.
+Proof. induction ms; [reflexivity|]. cbn. assumption. Qed.
+
+Lemma mac_as_prefix_proof : forall big ms m,
+  forallb wf_mac ms = true -> wf_mac m = true ->
+  trie_match (map mac_prefix ms) m = mac_set_contains ms m
+  /\ kernel_match big (map mac_prefix ms) m = mac_set_contains ms m.
+Proof.
+  intros big ms m Hms Hm.
+  assert (Ha : wf_addr m = true).
+  { unfold wf_mac in Hm. unfold wf_addr. apply N.ltb_lt in Hm. apply N.ltb_lt.
+    change (2 ^ 48) with 281474976710656 in Hm. change (2 ^ 128) with 340282366920938463463374607431768211456. lia. }
+  split.
+  - rewrite trie_contains_partial_proof; [apply mac_set_spec | now apply mac_wf | assumption | apply mac_no_len0].
+  - rewrite lpm_key_contains_proof; [apply mac_set_spec | now apply mac_wf | assumption].
+Qed.
+
+(* ------------------------------------------------------------------ rules over the stored sets *)
+
+
+Section Rules.
+  Variable hash : list prefix -> N.
+  Variable P : prefix -> bool.
+
+  Definition all_P (b : builder) : Prop := forall s, In s (b_tries b) -> forall p, In p s -> P p = true.
+
+  Lemma all_P_step : forall b o, op_all P o = true -> all_P b -> all_P (step hash b o).
+  Proof.
+    intros b [src not raw | not macs] Ho I; cbn [step op_all] in *.
+    - assert (Hc : forall p, In p (canonicalize raw) -> P p = true).
+      { intros p Hp. rewrite canonicalize_in in Hp. rewrite forallb_forall in Ho. now apply Ho. }
+      assert (Hfresh : all_P {| b_tries := b_tries b ++ [canonicalize raw]; b_dedup := b_dedup b; b_rules := [] |}).
+      { intros s Hs p Hp. cbn [b_tries] in Hs.
+        apply in_app_or in Hs as [Hs|[<-|[]]]; [now apply (I s Hs p Hp) | now apply Hc]. }
+      unfold add_ip. cbv zeta.
+      destruct (dedup_get (b_dedup b) (hash (canonicalize raw))) as [[i ps]|];
+        [destruct (prefixes_equal ps (canonicalize raw))|]; intros s Hs p Hp; cbn [b_tries] in Hs.
+      + now apply (I s Hs p Hp).
+      + now apply (Hfresh s Hs p Hp).
+      + now apply (Hfresh s Hs p Hp).
+    - apply andb_true_iff in Ho as [Hm H0]. rewrite forallb_forall in Hm.
+      unfold add_source_mac. cbv zeta. intros s Hs p Hp. cbn [b_tries] in Hs.
+      apply in_app_or in Hs as [Hs|[<-|[]]]; [now apply (I s Hs p Hp)|].
+      apply in_map_iff in Hp as [m [<- Hin]]. destruct not; [|now apply Hm].
+      apply in_app_or in Hin as [Hin|[<-|[]]]; [now apply Hm | assumption].
+  Qed.
+
+  Lemma all_P_run : forall ops, forallb (op_all P) ops = true -> all_P (run hash ops).
+  Proof.
+    intros ops. unfold run.
+    assert (I0 : all_P new_builder) by (intros s []).
+    revert I0. generalize new_builder.
+    induction ops as [|o ops IH]; intros b I H; [assumption|].
+    cbn [forallb] in H. apply andb_true_iff in H as [Ho H]. cbn [fold_left].
+    apply IH; [now apply all_P_step | assumption].
+  Qed.
+End Rules.
+
+Lemma wf_op_all : forall o, wf_op o = true -> op_all wf_prefix o = true.
+Proof.
+  intros [src not vs | not ms] H; cbn [wf_op op_all] in *; [assumption|].
+  apply andb_true_iff. split; [|reflexivity].
+  pose proof (mac_wf ms H) as W. rewrite forallb_forall in *. intros m Hm. apply W. now apply in_map.
+Qed.
+
+Lemma no_len0_op_all : forall o, op_no_v6_len0 o = true -> op_all (fun p => negb (len128 p =? 0)) o = true.
+Proof.
+  intros [src not vs | not ms] H; cbn [op_no_v6_len0 op_all] in *; [assumption|].
+  apply andb_true_iff. split; [|reflexivity]. apply forallb_forall. reflexivity.
+Qed.
+
+Lemma forallb_impl : forall A (f g : A -> bool) l, (forall x, f x = true -> g x = true) ->
+  forallb f l = true -> forallb g l = true.
+Proof. intros A f g l H. rewrite !forallb_forall. auto. Qed.
+
+Lemma target_wf : forall r k, wf_packet k = true -> wf_addr (target r k) = true.
+Proof.
+  intros r k H. unfold wf_packet in H. apply andb_true_iff in H as [H H3]. apply andb_true_iff in H as [H1 H2].
+  destruct r; assumption.
+Qed.
+
+Lemma packet_bin_spec : forall k r, packet_bin k r = probe_bin (target r k).
+Proof. intros k []; reflexivity. Qed.
+
+Lemma match_loop_kernel_spec : forall big tries rs k key i,
+  wf_packet k = true ->
+  (forall r, key r = lpm_node_of_key big (probe_key big (target r k))) ->
+  (forall r, In r rs -> exists s, nth_error tries (N.to_nat (r_index r)) = Some s
+                                  /\ (forall p, In p s <-> In p (r_values r)) /\ forallb wf_prefix s = true) ->
+  match_loop_kernel (map (lpm_map_of big) tries) rs key i = Some (first_hit (map spec_rule_of rs) k i).
+Proof.
+  intros big tries rs k key. induction rs as [|r rs IH]; intros i Hk Hkey H; [reflexivity|].
+  cbn [match_loop_kernel map first_hit]. destruct (H r (or_introl eq_refl)) as [s [Hs [Hm Hw]]].
+  rewrite nth_error_map, Hs. cbn [option_map]. rewrite Hkey.
+  change (is_some (lpm_lookup (lpm_map_of big s) (lpm_node_of_key big (probe_key big (target (r_role r) k)))))
+    with (kernel_match big s (target (r_role r) k)).
+  rewrite lpm_key_contains_proof by (auto using target_wf).
+  rewrite (set_contains_members s (r_values r)) by assumption.
+  unfold rule_hits. cbn [spec_rule_of sr_set sr_role sr_not].
+  rewrite IH by (auto; intros; apply H; now right).
+  destruct (set_contains (r_values r) (target (r_role r) k)), (r_not r); reflexivity.
+Qed.
+
+Lemma match_loop_spec : forall tries rs k bin i,
+  wf_packet k = true ->
+  (forall r, bin r = probe_bin (target r k)) ->
+  (forall r, In r rs -> exists s, nth_error tries (N.to_nat (r_index r)) = Some s
+                                  /\ (forall p, In p s <-> In p (r_values r)) /\ forallb wf_prefix s = true
+                                  /\ no_v6_len0 s = true) ->
+  match_loop (build_userspace tries) rs bin i = Some (first_hit (map spec_rule_of rs) k i).
+Proof.
+  intros tries rs k bin. induction rs as [|r rs IH]; intros i Hk Hbin H; [reflexivity|].
+  cbn [match_loop map first_hit]. destruct (H r (or_introl eq_refl)) as [s [Hs [Hm [Hw Hn]]]].
+  unfold build_userspace at 1. rewrite nth_error_map, Hs. cbn [option_map]. rewrite Hbin.
+  change (has_prefix (new_trie_from_prefixes s) (probe_bin (target (r_role r) k)))
+    with (trie_match s (target (r_role r) k)).
+  rewrite trie_contains_partial_proof by (auto using target_wf).
+  rewrite (set_contains_members s (r_values r)) by assumption.
+  unfold rule_hits. cbn [spec_rule_of sr_set sr_role sr_not].
+  rewrite IH by (auto; intros; apply H; now right).
+  destruct (set_contains (r_values r) (target (r_role r) k)), (r_not r); reflexivity.
+Qed.
+
+Lemma match_rules_kernel_spec : forall big tries rs k,
+  wf_packet k = true ->
+  (forall r, In r rs -> exists s, nth_error tries (N.to_nat (r_index r)) = Some s
+                                  /\ (forall p, In p s <-> In p (r_values r)) /\ forallb wf_prefix s = true) ->
+  match_rules_kernel big tries rs k = Some (first_hit (map spec_rule_of rs) k 0).
+Proof.
+  intros big tries rs k Hk H. unfold match_rules_kernel. cbv zeta.
+  apply match_loop_kernel_spec; [assumption | intros []; reflexivity | assumption].
+Qed.
+
+Lemma match_rules_spec : forall tries rs k,
+  wf_packet k = true ->
+  (forall r, In r rs -> exists s, nth_error tries (N.to_nat (r_index r)) = Some s
+                                  /\ (forall p, In p s <-> In p (r_values r)) /\ forallb wf_prefix s = true
+                                  /\ no_v6_len0 s = true) ->
+  match_rules tries rs k = Some (first_hit (map spec_rule_of rs) k 0).
+Proof.
+  intros tries rs k Hk H. unfold match_rules. cbv zeta.
+  apply match_loop_spec; [assumption | intros []; reflexivity | assumption].
+Qed.
+
+Lemma rules_kernel_proof : forall hash big ops k,
+  forallb wf_op ops = true -> wf_packet k = true ->
+  let b := run hash ops in
+  match_rules_kernel big (b_tries b) (b_rules b) k = Some (first_hit (map spec_rule_of (b_rules b)) k 0).
+Proof.
+  intros hash big ops k Hops Hk b. apply match_rules_kernel_spec; [assumption|].
+  intros r Hr. destruct (inv_run hash ops) as [_ I]. destruct (I r Hr) as [s [Hs Hm]].
+  exists s. repeat split; try assumption; try (now apply Hm).
+  apply forallb_forall. intros p Hp.
+  apply (all_P_run hash wf_prefix ops (forallb_impl _ _ _ _ wf_op_all Hops) s); [|assumption].
+  eapply nth_error_In; eassumption.
+Qed.
+
+Lemma rules_userspace_partial_proof : forall hash ops k,
+  forallb wf_op ops = true -> forallb op_no_v6_len0 ops = true -> wf_packet k = true ->
+  let b := run hash ops in
+  match_rules (b_tries b) (b_rules b) k = Some (first_hit (map spec_rule_of (b_rules b)) k 0).
+Proof.
+  intros hash ops k Hops Hn Hk b. apply match_rules_spec; [assumption|].
+  intros r Hr. destruct (inv_run hash ops) as [_ I]. destruct (I r Hr) as [s [Hs Hm]].
+  exists s. repeat split; try assumption; try (now apply Hm).
+  - apply forallb_forall. intros p Hp.
+    apply (all_P_run hash wf_prefix ops (forallb_impl _ _ _ _ wf_op_all Hops) s); [|assumption].
+    eapply nth_error_In; eassumption.
+  - apply forallb_forall. intros p Hp.
+    apply (all_P_run hash _ ops (forallb_impl _ _ _ _ no_len0_op_all Hn) s); [|assumption].
+    eapply nth_error_In; eassumption.
+Qed.
+
+Lemma rules_userspace_refuted_proof :
+  exists ops k, forallb wf_op ops = true /\ wf_packet k = true /\
+    let b := run hash_lpm_set ops in
+    match_rules (b_tries b) (b_rules b) k <> Some (first_hit (map spec_rule_of (b_rules b)) k 0).
+Proof.
+  exists [OpIp false false [{| p_is4 := false; p_addr := 0; p_bits := 0 |}]],
+         {| k_dst := 1; k_src := 0; k_mac := 0 |}.
+  repeat split. vm_compute. discriminate.
+Qed.
+
+Lemma same_set_refuted_proof :
+  exists ps a, forallb wf_prefix ps = true /\ wf_addr a = true /\ trie_match ps a <> kernel_match false ps a.
+Proof.
+  exists [{| p_is4 := false; p_addr := 0; p_bits := 0 |}], 1.
+  repeat split; vm_compute; discriminate.
+Qed.
+
+(* ------------------------------------------------------------------ DNS response routing *)
+
+Lemma response_loop_spec : forall rs ips i,
+  forallb wf_resp_rule rs = true -> forallb resp_no_v6_len0 rs = true -> forallb wf_addr ips = true ->
+  response_loop (map (fun r => new_trie_from_prefixes (rr_values r)) rs) rs (map probe_bin ips) i
+  = response_first_hit (resp_spec_rules rs) ips i.
+Proof.
+  induction rs as [|r rs IH]; intros ips i Hw Hn Hi; [reflexivity|].
+  cbn [forallb] in Hw, Hn. apply andb_true_iff in Hw as [Hw Hws]. apply andb_true_iff in Hn as [Hn Hns].
+  cbn [map response_loop resp_spec_rules response_first_hit].
+  assert (E : existsb (has_prefix (new_trie_from_prefixes (rr_values r))) (map probe_bin ips)
+              = existsb (set_contains (rr_values r)) ips).
+  { clear IH. induction ips as [|a ips IHa]; [reflexivity|].
+    cbn [forallb] in Hi. apply andb_true_iff in Hi as [Ha Hi].
+    cbn [map existsb]. rewrite IHa by assumption. f_equal.
+    change (has_prefix (new_trie_from_prefixes (rr_values r)) (probe_bin a)) with (trie_match (rr_values r) a).
+    now apply trie_contains_partial_proof. }
+  rewrite E. fold (resp_spec_rules rs). rewrite IH by assumption.
+  destruct (existsb (set_contains (rr_values r)) ips), (rr_not r); reflexivity.
+Qed.
+
+Lemma response_partial_proof : forall rs ips,
+  forallb wf_resp_rule rs = true -> forallb resp_no_v6_len0 rs = true -> forallb wf_addr ips = true ->
+  response_match rs ips = response_first_hit (resp_spec_rules rs) ips 0.
+Proof. intros. now apply response_loop_spec. Qed.
+
+Lemma response_refuted_proof :
+  exists rs ips, forallb wf_resp_rule rs = true /\ forallb wf_addr ips = true /\
+    response_match rs ips <> response_first_hit (resp_spec_rules rs) ips 0.
+Proof.
+  exists [{| rr_not := false; rr_values := [{| p_is4 := false; p_addr := 0; p_bits := 0 |}] |}], [1].
+  repeat split; vm_compute; discriminate.
+Qed.
+
+(* ------------------------------------------------------------------ statements as used by C12_Props *)
+
+Lemma prefix2bin_partial_proof : forall p, wf_prefix p = true ->
+  (len128 p <> 0 -> prefix2bin128 p = prefix_bits p)
+  /\ (len128 p = 0 -> prefix2bin128 p = bits128 (addr128 p)).
+Proof.
+  intros p _. split; intros H; [apply prefix2bin128_pos; lia | now apply prefix2bin128_zero].
+Qed.
+
+Lemma same_set_partial_proof : forall big ps a,
+  forallb wf_prefix ps = true -> wf_addr a = true -> no_v6_len0 ps = true ->
+  trie_match ps a = kernel_match big ps a.
+Proof. intros. rewrite trie_contains_partial_proof, lpm_key_contains_proof by assumption. reflexivity. Qed.
+
+Lemma nonvacuous_proof :
+  let ps := [ {| p_is4 := true; p_addr := 0x0a010203; p_bits := 8 |};        (* 10.1.2.3/8, unmasked *)
+              {| p_is4 := true; p_addr := 0x0a800000; p_bits := 9 |};        (* 10.128.0.0/9, nested *)
+              {| p_is4 := false; p_addr := 0xffff01020304; p_bits := 128 |}; (* ::ffff:1.2.3.4/128 *)
+              {| p_is4 := true; p_addr := 0; p_bits := 0 |};                 (* 0.0.0.0/0 *)
+              {| p_is4 := false; p_addr := 0x20010db8000000000000000000000000; p_bits := 32 |} ] in
+  let probes := [ v4_mapped 0x0a000000; v4_mapped 0x0affffff; v4_mapped 0x09ffffff; v4_mapped 0x0b000000;
+                  0xfffeffffffff; 0x1000000000000; 0x20010db8ffffffffffffffffffffffff;
+                  0x20010db9000000000000000000000000; 0 ] in
+  forallb wf_prefix ps = true /\ no_v6_len0 ps = true /\ forallb wf_addr probes = true
+  /\ map (set_contains (firstn 3 ps)) probes = [true; true; false; false; false; false; false; false; false]
+  /\ map (set_contains ps) probes = [true; true; true; true; false; false; true; false; false]
+  /\ map (trie_match ps) probes = map (set_contains ps) probes
+  /\ map (kernel_lookup false ps) probes
+     = [Some 104; Some 105; Some 96; Some 96; None; None; Some 32; None; None].
+Proof. cbv zeta. repeat split; vm_compute; reflexivity. Qed.
+
+Lemma share_nonvacuous_proof :
+  let a := {| p_is4 := true; p_addr := 0xc6336400; p_bits := 24 |} in
+  let b := {| p_is4 := true; p_addr := 0xcb007100; p_bits := 24 |} in
+  let c := {| p_is4 := false; p_addr := 0xffffcb007100; p_bits := 120 |} in
+  let ops := [OpIp false false [a; b]; OpIp true false [b; a; a]; OpIp false true [a; c]; OpMac true [0x001122334455]] in
+  map r_index (b_rules (run hash_lpm_set ops)) = [0; 0; 1; 2]
+  /\ map r_index (b_rules (run (fun _ => 7) ops)) = [0; 0; 1; 2]
+  /\ length (b_tries (run (fun _ => 7) ops)) = 3%nat
+  /\ forallb wf_op ops = true /\ forallb op_no_v6_len0 ops = true.
+Proof. cbv zeta. repeat split; vm_compute; reflexivity. Qed.
+
+(* ------------------------------------------------------------------ the repair
+   Not part of the model of the code as it stands: with `if n == 0 { return "" }` before the loop of
+   Prefix2bin128 the full statements hold.  Kept so that the model can be switched when the code is fixed. *)
+Definition prefix2bin128_repaired (p : prefix) : list bool :=
+  let n := (Z.of_N (p_bits p) + (if p_is4 p then 96 else 0))%Z in
+  if (n =? 0)%Z then [] else p2b_loop (flat_map byte_bits (as16 p)) n.
+
+Lemma prefix2bin128_repaired_full : forall p, prefix2bin128_repaired p = prefix_bits p.
+Proof.
+  intros p. unfold prefix2bin128_repaired. cbv zeta. rewrite p2b_count.
+  destruct (Z.of_N (len128 p) =? 0)%Z eqn:E.
+  - unfold prefix_bits. replace (len128 p) with 0 by lia. reflexivity.
+  - rewrite <- p2b_count. apply prefix2bin128_pos. lia.
+Qed.
+
+Lemma trie_contains_repaired_full : forall ps a,
+  forallb wf_prefix ps = true -> wf_addr a = true ->
+  has_prefix (map prefix2bin128_repaired ps) (probe_bin a) = set_contains ps a.
+Proof.
+  intros ps a Hps Ha. unfold has_prefix, set_contains. rewrite probe_bin_spec.
+  induction ps as [|p ps IH]; [reflexivity|].
+  cbn [forallb] in Hps. apply andb_true_iff in Hps as [Hp Hps].
+  cbn [map existsb]. rewrite IH by assumption. f_equal.
+  rewrite prefix2bin128_repaired_full. now apply is_prefix_contains.
 Qed.
